@@ -670,7 +670,8 @@ class NP2Converter:
         if wg.iw == wg.nwin - 1:
             ind2save[1] = int(self.samples_window / ratio)
 
-        chunk2save = (
+        # round before the cast: volts / volts-per-bit lands a hair below the original integer for some values
+        chunk2save = np.round(
             np.c_[
                 chunk[:, slice(*ind2save)].T
                 / self.sr.channel_conversion_sample2v[etype][: self.napch],
